@@ -198,7 +198,7 @@ def cases(tier, seed):
         for route in (('plain', 'wrapper') if scenario not in ('symbolic-call', 'registered') else ('plain',)):
             cfg = rng.choice(cfgs2)
             out.append(dict(kind='thread-schedules', cfg=cfg, scenario=scenario, op=op, route=route, ka=rng.sample(range(4), 2), kb=rng.sample(range(4), 2),
-                            max_preempt=1 if tier == 'quick' else 2, max_schedules=400 if tier == 'quick' else 6000))
+                            max_preempt=1 if tier == 'quick' else 2, max_schedules=400 if tier == 'quick' else 6000, heavy=True))
     # --- histories on a multivector OBJECT: earlier calls / uses / inspections of x must not leak into
     #     multivectors derived from x (map, filter, grade, asfullmv, negation ...) nor into later calls of x
     for i in range(90 if tier == 'quick' else 1200):
